@@ -469,6 +469,15 @@ theorem hook_channels_closed_once_at_most_one_error (ops : List HookOp) :
   have h := this {} ⟨by simp, by simp⟩
   exact ⟨h.done, fun c hc => by rw [h.cur c hc]; exact ⟨rfl, rfl⟩⟩
 
+/-- SetPubSubHooks on a connection that already failed (`p.Error() != nil`) is the two swaps
+    `swapNew; swapEmpty (some err)`: the freshly handed-out channel gets the error, is closed, and is
+    taken OUT of the slot again — the slot is empty afterwards, so a later call (or the clean-up of
+    `_background`) finds nothing it could close or send to a second time. -/
+theorem sethooks_on_failed_pipe_empties_slot (s : HookSt) (e : String) :
+    let s' := hookStep (hookStep s .swapNew) (.swapEmpty (some e))
+    s'.cur = none ∧ s'.done.getLast? = some { errs := [e], closes := 1, sendAfterClose := false } := by
+  simp [hookStep, HookCh.finish]
+
 /-! ### non-vacuity -/
 
 example : ((run {} [.subscribe ["a"] false, .subscribe ["a", "b"] false, .publish "a" ⟨"", "a", "1"⟩, .publish "b" ⟨"", "b", "2"⟩,
